@@ -162,10 +162,35 @@ fn ref_u32_at(b: &[u8], off: usize) -> Option<u32> {
     (b.len() >= off + 4).then(|| le(&b[off..off + 4]) as u32)
 }
 
+/// Byte order of the 4-byte chunk id / chunk length fields.
+#[derive(Clone, Copy, PartialEq, Debug)]
+enum Order {
+    Big,
+    Little,
+}
+
+/// TRANSCRIPTION CHOICE (one line to flip; keep equal to `chunkLengthOrder` in
+/// lean/CamVerif/Spec/StreamLayout.lean).  The chunk LENGTH field is read big-endian because
+/// that is what `stream_handle.rs` does (`u32::from_be_bytes`); the standard text is not
+/// available offline and nothing else in /repo (no test, no sample data, no producer of chunk
+/// payloads) confirms or contradicts it.  Independent recollection (USB3 Vision is little-endian
+/// throughout; GenICam's U3V chunk adapter reads id/length without byte swap, only the GEV one
+/// swaps; aravis uses little-endian for U3V chunks) says LITTLE.  The oracle certifies whichever
+/// order is written here; `build:ext-layout …` counters show how many generated layouts tell
+/// the two readings apart.
+const CHUNK_LEN_ORDER: Order = Order::Big;
+
+fn chunk_len(order: Order, f: [u8; 4]) -> u32 {
+    match order {
+        Order::Big => u32::from_be_bytes(f),
+        Order::Little => u32::from_le_bytes(f),
+    }
+}
+
 /// Chunk layout decoded from the end of `buf[..valid]`: data size of the first chunk.
 /// `Err(true)` = layout malformed (error expected), `Err(false)` = a length field lies outside
 /// the buffer (only possible outside the premise `valid <= buf.len()`).
-fn ref_walk(buf: &[u8], valid: u64) -> Result<u64, bool> {
+fn ref_walk(buf: &[u8], valid: u64, order: Order) -> Result<u64, bool> {
     let mut end = valid as i128;
     loop {
         if end < 4 {
@@ -176,7 +201,7 @@ fn ref_walk(buf: &[u8], valid: u64) -> Result<u64, bool> {
             return Err(false);
         }
         let lp = lp as usize;
-        let n = u32::from_be_bytes([buf[lp], buf[lp + 1], buf[lp + 2], buf[lp + 3]]) as i128;
+        let n = chunk_len(order, [buf[lp], buf[lp + 1], buf[lp + 2], buf[lp + 3]]) as i128;
         let start = end - 8 - n;
         if start < 0 {
             return Err(true);
@@ -370,15 +395,15 @@ fn check_image_leader(which: &str, b: &[u8], got: &Part<ImplImageLeader>) -> Opt
         Ok(Ok(x)) => match ref_image_leader(b) {
             None => Some(format!("{which} specific leader decoded from a packet shorter than 52 bytes")),
             Some(r) => {
+                // pixel format through the frozen PFNC reference, not the implementation's table
                 let same = x.ts == r.ts as u128
-                    && u32::from(x.pf) == r.pf
-                    && PixelFormat::try_from(r.pf) == Ok(x.pf)
+                    && pfnc().get(&r.pf).map(|n| n.to_string()) == Some(format!("{:?}", x.pf))
                     && (x.w, x.h, x.xo, x.yo, x.xp) == (r.w, r.h, r.xo, r.yo, r.xp);
                 (!same).then(|| format!("{which} specific leader fields differ from the layout decode: {x:?} vs {r:?}"))
             }
         },
         Ok(Err(_)) => match ref_image_leader(b) {
-            Some(r) if PixelFormat::try_from(r.pf).is_ok() => {
+            Some(r) if pfnc().contains_key(&r.pf) => {
                 Some(format!("{which} specific leader rejected although complete with a known pixel format"))
             }
             _ => None,
@@ -734,8 +759,8 @@ struct RefPayload {
     ptype: u16,
     ts: u64,
     valid: u64,
-    /// (w, h, xo, yo, pf code, image size)
-    info: Option<(u64, u64, u64, u64, u32, u64)>,
+    /// (w, h, xo, yo, PFNC name of the pixel format, image size)
+    info: Option<(u64, u64, u64, u64, String, u64)>,
 }
 
 /// What a payload built from these inputs must look like, decoded independently;
@@ -750,19 +775,19 @@ fn ref_build(c: &BuildCase, buf: &[u8]) -> Option<RefPayload> {
     match l.ptype {
         T_IMAGE => {
             let il = ref_image_leader(&c.leader)?;
-            PixelFormat::try_from(il.pf).ok()?;
+            let pf = pfnc().get(&il.pf)?.to_string();
             let h = ref_u32_at(&c.trailer, 28)?;
             Some(RefPayload { id: l.id, ptype: l.ptype, ts: il.ts, valid: t.valid,
-                info: Some((il.w as u64, h as u64, il.xo as u64, il.yo as u64, il.pf, t.valid)) })
+                info: Some((il.w as u64, h as u64, il.xo as u64, il.yo as u64, pf, t.valid)) })
         }
         T_EXT => {
             let il = ref_image_leader(&c.leader)?;
-            PixelFormat::try_from(il.pf).ok()?;
+            let pf = pfnc().get(&il.pf)?.to_string();
             let h = ref_u32_at(&c.trailer, 28)?;
             ref_u32_at(&c.trailer, 32)?;
-            let isz = ref_walk(buf, t.valid).ok()?;
+            let isz = ref_walk(buf, t.valid, CHUNK_LEN_ORDER).ok()?;
             Some(RefPayload { id: l.id, ptype: l.ptype, ts: il.ts, valid: t.valid,
-                info: Some((il.w as u64, h as u64, il.xo as u64, il.yo as u64, il.pf, isz)) })
+                info: Some((il.w as u64, h as u64, il.xo as u64, il.yo as u64, pf, isz)) })
         }
         _ => {
             let ts = ref_chunk_leader_ts(&c.leader)?;
@@ -792,6 +817,30 @@ fn do_build(rep: &mut Report, c: &BuildCase, src: &str) {
     rep.count(&format!("build/{src}"));
     rep.count(if in_premise { "build:recv<=buf" } else { "build:recv>buf(outside premise, differential only)" });
     let mut problems: Vec<(String, String)> = vec![]; // (class, text)
+    // Does this input tell a big-endian chunk length field from a little-endian one?  (The order
+    // is a transcription choice taken from the code, see CHUNK_LEN_ORDER.)
+    if in_premise {
+        if let (Some(l), Some(t)) = (ref_leader(&c.leader), ref_trailer(&c.trailer)) {
+            if l.ptype == T_EXT && t.status == 0 && t.valid <= c.recv as u64 {
+                let be = ref_walk(&buf, t.valid, Order::Big);
+                let le_ = ref_walk(&buf, t.valid, Order::Little);
+                rep.count(match (&be, &le_) {
+                    (Ok(a), Ok(b)) if a == b => "build:ext-layout byte-order-symmetric: well-formed, same image size under BE and LE",
+                    (Err(_), Err(_)) => "build:ext-layout byte-order-symmetric: malformed under BE and LE",
+                    (Ok(_), Ok(_)) => "build:ext-layout DISTINGUISHING: well-formed under both, different image size",
+                    (Ok(_), Err(_)) => "build:ext-layout DISTINGUISHING: well-formed only with BE length fields",
+                    (Err(_), Ok(_)) => "build:ext-layout DISTINGUISHING: well-formed only with LE length fields",
+                });
+                if le_.is_ok() && be != le_ {
+                    rep.count(match &r {
+                        Ok(Ok(_)) => "build:ext-layout well-formed-as-LE, differs as BE -> implementation builds a payload (BE reading)",
+                        Ok(Err(_)) => "build:ext-layout well-formed-as-LE, differs as BE -> implementation returns Err",
+                        Err(()) => "build:ext-layout well-formed-as-LE, differs as BE -> implementation panics",
+                    });
+                }
+            }
+        }
+    }
     let ans = match &r {
         Err(()) => {
             if in_premise {
@@ -863,7 +912,7 @@ fn do_build(rep: &mut Report, c: &BuildCase, src: &str) {
                             valid: valid.unwrap_or(u64::MAX),
                             info: info.as_ref().map(|i| {
                                 (i.width as u64, i.height as u64, i.x_offset as u64, i.y_offset as u64,
-                                 u32::from(i.pixel_format), i.image_size as u64)
+                                 format!("{:?}", i.pixel_format), i.image_size as u64)
                             }),
                         };
                         if got != rp || p.timestamp().as_nanos() != rp.ts as u128 {
@@ -927,13 +976,20 @@ fn do_build(rep: &mut Report, c: &BuildCase, src: &str) {
 
 /// Chunk trailers (id + length, big endian) for chunks with the given data sizes laid out
 /// from offset 0; returns (total size, patches).
-fn chunk_layout(rng: &mut Rng, sizes: &[usize]) -> (usize, Vec<(usize, Vec<u8>)>) {
+fn order_bytes(order: Order, x: u32) -> [u8; 4] {
+    match order {
+        Order::Big => x.to_be_bytes(),
+        Order::Little => x.to_le_bytes(),
+    }
+}
+
+fn chunk_layout(rng: &mut Rng, sizes: &[usize], order: Order) -> (usize, Vec<(usize, Vec<u8>)>) {
     let mut off = 0usize;
     let mut patches = vec![];
     for n in sizes {
         let mut f = vec![];
-        f.extend_from_slice(&(rng.next_u64() as u32).to_be_bytes());
-        f.extend_from_slice(&(*n as u32).to_be_bytes());
+        f.extend_from_slice(&order_bytes(order, rng.next_u64() as u32));
+        f.extend_from_slice(&order_bytes(order, *n as u32));
         patches.push((off + n, f));
         off += n + 8;
     }
@@ -1236,6 +1292,9 @@ fn main() {
             rep.flush_model(&args.camdrv);
         }
     }
+    rep.extra.insert("chunk_length_byte_order".into(), json!({"transcribed_as": format!("{:?}", CHUNK_LEN_ORDER),
+        "source_of_choice": "code (u32::from_be_bytes in stream_handle.rs); standard text unavailable offline; independent recollection says Little for U3V",
+        "see_counters": "input_distribution: build:ext-layout …"}));
     rep.extra.insert("builder_grid".into(), json!({"buffer_len": format!("0..={max_l}"), "recv": "0..=len+1", "valid": "0..=len+2",
         "types": 3, "exhaustive_over_grid": true}));
 
@@ -1253,7 +1312,10 @@ fn main() {
                 _ => rng.below(1500) as usize,
             })
             .collect();
-        let (total, mut patches) = chunk_layout(&mut rng, &sizes);
+        // a quarter of the layouts carry LITTLE-endian id/length fields (what a camera would send
+        // if the recollection about U3V chunk byte order is right; see CHUNK_LEN_ORDER)
+        let order = if rng.chance(1, 4) { Order::Little } else { Order::Big };
+        let (total, mut patches) = chunk_layout(&mut rng, &sizes, order);
         // corrupt one length field in a third of the cases
         let mut corrupted = false;
         if rng.chance(1, 3) {
@@ -1270,7 +1332,7 @@ fn main() {
                 6 => (end_of_k as u32).wrapping_sub(7), // one too many: underflow
                 _ => rng.next_u64() as u32,
             };
-            patches[k].1[4..8].copy_from_slice(&bad.to_be_bytes());
+            patches[k].1[4..8].copy_from_slice(&order_bytes(order, bad));
             corrupted = true;
         }
         let valid: u64 = match rng.below(12) {
@@ -1321,7 +1383,16 @@ fn main() {
             tb.truncate(cut);
         }
         let c = BuildCase { leader: lb, trailer: tb, len, seed: rng.below(7), patches, recv };
-        do_build(&mut rep, &c, if corrupted { "chunks-corrupted" } else { "chunks" });
+        do_build(
+            &mut rep,
+            &c,
+            match (corrupted, order) {
+                (false, Order::Big) => "chunks",
+                (true, Order::Big) => "chunks-corrupted",
+                (false, Order::Little) => "chunks-le-fields",
+                (true, Order::Little) => "chunks-le-fields-corrupted",
+            },
+        );
     }
     rep.write(&args);
 }
